@@ -51,6 +51,11 @@ def run(tier):
             for k in range(0, 4):
                 bad = MENU[(i + k) % len(MENU)] + " "
                 cases.append((family, kind, seq, k, bad))
+            if kind == "top":
+                # at the top level a stray '}' closes nothing: it is a malformed statement too (the scanner's call stack is
+                # empty there - Lexer.tla's RetUnderflow - whatever was pushed and popped before)
+                for k in range(1, 4):
+                    cases.append((family, kind, seq, k, ["} ", "} } ", "}; "][(i + k) % 3]))
     tasks = []
     for family, kind, seq, k, bad in cases:
         orig, path = wrap(kind, seq)
